@@ -121,6 +121,12 @@ def run(R, env):
         c, bi, a = seen[v]
         good = ns_of(prog, a[1]) == ns and msg_field(a[2], v, "start_after") and msg_field(a[3], v, "limit") and a[4][0] == "agg" and a[4][2] == "Ascending"
         R.ob("C17.R2", v + ":arguments", good, "helper called with (%s, %s, %s, %s)" % (ns_of(prog, a[1]), fmt(a[2])[:50], fmt(a[3])[:50], fmt(a[4])[:40]), loc=c.body.loc(bi), fn=c.body.key)
+        # every success path of the query function goes through the helper and returns its result
+        from engine.analysis import must_pass
+        through = must_pass(c, bi)
+        want = norm(("payload", c.T.call_term(c.body.blocks[bi]["term"], bi), "Ok/Some"))
+        carries = all(_all_paths_contain(term, want) for _, term in success_terms(c))
+        R.ob("C17.R2", v + ":every-answer-comes-from-the-helper", through and carries, "query %s has a success path that does not return the pagination helper's result (a shortcut answers some (cursor, limit, filter) triples differently)" % v, loc=c.body.loc(bi), fn=c.body.key)
         f = a[5]
         if filt is None:
             R.ob("C17.R2", v + ":no-filter", f[0] == "agg" and f[2] == "None", "filter = %s; expected None" % fmt(f)[:80], loc=c.body.loc(bi), fn=c.body.key)
@@ -173,6 +179,28 @@ def run(R, env):
                     R.ob("C17.R3", "UnstakeRequests:by_user-prefix-of-the-user", bool(good), "index %s prefix %s" % (".".join(path_), fmt(user)[:80]), loc=o["loc"], fn=c.body.key)
                     R.ob("C17.R3", "UnstakeRequests:full-range-ascending", full, "range(%s, %s, %s)" % (fmt(o["args"][2])[:30], fmt(o["args"][3])[:30], fmt(o["args"][4])[:30]), loc=o["loc"], fn=c.body.key)
     R.ob("C17.R3", "UnstakeRequests:shape", found_ur, "UnstakeRequests does not range over a prefix of the by_user index", fn="staking::contract::query")
+    # no second container over the IndexedMap's namespaces (a raw Map on the primary namespace skips the index upkeep)
+    owned = set()
+    for b in prog.fn_bodies(CRATE):
+        if any(call_name(t) == "cw_storage_plus::IndexedMap::new" for _, t in b.calls()):
+            cc = Ctx(b)
+            for bi, t, a in call_sites(cc, lambda nm: nm in ("cw_storage_plus::IndexedMap::new", "cw_storage_plus::UniqueIndex::new", "cw_storage_plus::MultiIndex::new")):
+                for x in a:
+                    if x[0] == "const" and x[1] == "str":
+                        owned.add(x[2])
+    R.floor("C17.R3", "namespaces owned by the IndexedMap", len(owned), 2)
+    alias = []
+    for path in prog.consts:
+        if path.startswith(CRATE + "::") and prog.storage_namespace(path) in owned:
+            alias.append(path)
+    for b in prog.fn_bodies(CRATE):
+        if any(call_name(t) == "cw_storage_plus::IndexedMap::new" for _, t in b.calls()):
+            continue
+        cc = Ctx(b)
+        for bi, t, a in call_sites(cc, lambda nm: nm.startswith("cw_storage_plus::") and nm.endswith("::new")):
+            if any(x[0] == "const" and x[1] == "str" and x[2] in owned for x in a):
+                alias.append("%s (%s)" % (b.key, b.loc(bi)))
+    R.ob("C17.R3", "no-aliasing-container", not alias, "another storage container is declared over a namespace of the unstake-request IndexedMap %s: %s — writes through it bypass the by_user index" % (sorted(owned), alias), fn="staking::state")
     raw = []
     for b in prog.fn_bodies(CRATE):
         for bi, t in b.calls():
@@ -187,3 +215,28 @@ def run(R, env):
             res = closure_result(prog, a[0], params={2: ("rec",)}) if a[0][0] == "closure" else None
             good = res is not None and res[0] == "tuple" and len(res[1]) == 2 and res[1][0] == ("field", ("rec",), "user") and res[1][1] == ("field", ("rec",), "batch_id")
             R.ob("C17.R3", "index-function-is-(user,batch_id)", good, "index function yields %s" % fmt(res or ("none",))[:100], loc=b.loc(bi), fn=b.key)
+
+
+def _all_paths_contain(t, want, _memo=None):
+    """every phi-resolution of term t contains the subterm `want`"""
+    from engine.mir import intern
+    if _memo is None:
+        _memo = {}
+        t = intern(t)
+    if not isinstance(t, tuple):
+        return False
+    k = id(t)
+    if k in _memo:
+        return _memo[k]
+    _memo[k] = False
+    if t and isinstance(t[0], str):
+        if norm(t) == want:
+            r = True
+        elif t[0] == "phi":
+            r = all(_all_paths_contain(a, want, _memo) for a in t[1])
+        else:
+            r = any(_all_paths_contain(x, want, _memo) for x in t[1:] if isinstance(x, tuple))
+    else:
+        r = any(_all_paths_contain(x, want, _memo) for x in t)
+    _memo[k] = r
+    return r
